@@ -54,6 +54,11 @@ def main(ids):
         }
         if os.path.exists(p + "/detect.json"):
             meta["checks"] = json.load(open(p + "/detect.json"))
+        if os.path.exists(p + "/meta.json"):
+            oldm = json.load(open(p + "/meta.json"))
+            for k in ("status", "rejected_because", "notes"):
+                if k in oldm:
+                    meta[k] = oldm[k]
         json.dump(meta, open(p + "/meta.json", "w"), indent=1)
         print(d, "ok")
 
